@@ -87,9 +87,12 @@ TCrash == Ev.t = "crash" /\ WorkerCrash(Ev.w) /\ StateMatches
 TR1 == /\ Ev.t = "r1" /\ Read1(IF Ev.kind = "ids" THEN "ids" ELSE "get", Ev.part)
        /\ (rd'.st = "done") = Ev.done
        /\ Ev.done => rd'.res[Ev.part] = Ev.val
-TR2 == /\ Ev.t = "r2" /\ Read2
-       /\ IF rd.kind = "get" THEN rd'.res[rd.part] = Ev.val
-          ELSE \A p \in Parts : rd'.res[p] = Ev.ids[p]
+\* r2: the inner store answered the reader (it is parked at the exit of the inner-store call);
+\* r3: the call returned - its result must be what the model fixed at Read2, whatever ran in between
+TR2 == Ev.t = "r2" /\ Read2
+TR3 == /\ Ev.t = "r3" /\ Read3
+       /\ IF rd.kind = "get" THEN rd.res[rd.part] = Ev.val
+          ELSE \A p \in Parts : rd.res[p] = Ev.ids[p]
 
 \* atomic observations through every instance, with and without a transaction
 TObs == /\ Ev.t = "obs"
@@ -102,7 +105,7 @@ TObs == /\ Ev.t = "obs"
 TNext == /\ l <= Len(Trace)
          /\ l' = l + 1
          /\ SFrame
-         /\ (TReset \/ TTx \/ TClaim \/ TRStart \/ TREnd \/ THb \/ TFin \/ TRel \/ TExpire \/ TCrash \/ TR1 \/ TR2 \/ TObs)
+         /\ (TReset \/ TTx \/ TClaim \/ TRStart \/ TREnd \/ THb \/ TFin \/ TRel \/ TExpire \/ TCrash \/ TR1 \/ TR2 \/ TR3 \/ TObs)
 
 TInit == /\ Init /\ l = 1
          /\ ssnaps = <<>> /\ svis = 1 /\ srd = <<>> /\ slost = FALSE
